@@ -601,3 +601,16 @@ Proof.
   apply filter_delivered. exact (map_auto_log_rel_lem (filter_mapper accept) k decide nw sched items Hc).
 Qed.
 End Filter.
+
+(* FilterAuto runs the same feeder/workers/collector; its consumer never stops: a complete schedule exists from every
+   reachable state *)
+Lemma filter_auto_no_deadlock_lem : forall (V : Type) (accept : V -> res bool) (k : nat) (decide : bool) (nw : nat)
+  (sched : list choice) (items : list (res V)), 1 <= nw ->
+  exists sched', ma_complete (filter_auto_run accept k decide nw (sched ++ sched') items) = true.
+Proof.
+  intros V accept k decide nw sched items Hnw.
+  destruct (map_auto_no_deadlock_lem (filter_mapper accept) k decide nw sched items Hnw) as ((sched' & H) & _).
+  exists sched'. unfold filter_auto_run.
+  pose proof (map_auto_run_sim (filter_mapper accept) (@filter_step V) [] k decide nw (sched ++ sched') items) as (Hc & _).
+  change (yg (@filter_step V)) with (@filter_yield V) in Hc. rewrite Hc. exact H.
+Qed.
